@@ -12,8 +12,10 @@ import (
 	"encoding/json"
 	"fmt"
 	"math/big"
+	"reflect"
 	"sort"
 	"time"
+	"unsafe"
 
 	sdkmath "cosmossdk.io/math"
 	dbm "github.com/cometbft/cometbft-db"
@@ -653,3 +655,13 @@ func (n *Node) DoubleSignEvidence(i int, height int64, t time.Time) abci.Misbeha
 var _ = tmtypes.ABCIPubKeyTypeEd25519
 
 func Errf(format string, a ...any) error { return fmt.Errorf(format, a...) }
+
+// AnteHandler returns the ante handler the application installed (the very instance DeliverTx and
+// CheckTx use). baseapp keeps it in an unexported field; it is read, not replaced.
+func (n *Node) AnteHandler() sdk.AnteHandler {
+	f := reflect.ValueOf(n.App.BaseApp).Elem().FieldByName("anteHandler")
+	if !f.IsValid() {
+		return nil
+	}
+	return *(*sdk.AnteHandler)(unsafe.Pointer(f.UnsafeAddr()))
+}
